@@ -75,7 +75,7 @@ PROBES = ['late-write', 'late-close', 'client-close-while-writing-peer-gone', 'a
           'fault:short_read', 'fault:spurious_eagain_read', 'fault:recv_reset', 'fault:short_write', 'fault:transient_send_error', 'fault:fatal_send_error',
           'fault:accept_error', 'fault:poll_eintr', 'fault:connect_delay']
 TIERS = {
-    'quick': dict(runs=12000, wall=30, chunk=25, cfg=dict(max_conn=4, max_actions=10, big=20000)),
+    'quick': dict(runs=22000, wall=30, chunk=25, cfg=dict(max_conn=4, max_actions=10, big=20000)),
     'thorough': dict(runs=300000, wall=600, chunk=200, cfg=dict(max_conn=5, max_actions=22, big=60000)),
 }
 
